@@ -36,9 +36,9 @@ type Conv struct {
 	ExtraMethods string `json:"extra_methods,omitempty"`
 	ExpectFail   bool   `json:"expect_fail,omitempty"`
 	// AnyOutcome: generation may succeed or fail with a diagnostic (crash / type-check gates only)
-	AnyOutcome bool `json:"any_outcome,omitempty"`
-	FailNote     string `json:"fail_note,omitempty"`
-	Spec         *Spec  `json:"spec,omitempty"`
+	AnyOutcome bool   `json:"any_outcome,omitempty"`
+	FailNote   string `json:"fail_note,omitempty"`
+	Spec       *Spec  `json:"spec,omitempty"`
 	// Solo: do not share a package with other convs
 	Solo bool `json:"solo,omitempty"`
 	// Aux: auxiliary packages below the group's directory: directory name -> Go source.
